@@ -271,6 +271,8 @@ def run(prog: Program, rep: Report, tier: str = "quick") -> None:
     rep.extra["definitions_compared"] = compared
     rep.floor("R19.2", 25)
 
+    run_r194(prog, rep)
+
     # class-level attributes and decorators of the role classes
     for kind in ROLE_KINDS:
         descr = {}
@@ -301,3 +303,97 @@ def run(prog: Program, rep: Report, tier: str = "quick") -> None:
                         line=ci.node.lineno,
                         message=f"class-level attributes/decorators/bases of {ci.name} differ from the majority: {descr[r.short]} vs {major}",
                     )
+
+
+# ======================================================================================
+# R19.4 pairing kernels: Bradley-Terry partial pairing uses the same per-pair exchange as full pairing
+# ======================================================================================
+import copy as _copy
+
+
+def _pair_block(fi: FuncInfo):
+    """The innermost `for` loop of the kernel that calls the callback slot (self.gamma): its body is the per-pair
+    exchange. A leading self-exclusion guard (`if q == i: continue`) is not part of the exchange."""
+    best = None
+    for n in ast.walk(fi.node):
+        if isinstance(n, ast.For):
+            has_cb = any(isinstance(c, ast.Call) and isinstance(c.func, ast.Attribute) and isinstance(c.func.value, ast.Name) and c.func.value.id == "self" and c.func.attr == "gamma"
+                         for c in ast.walk(n))
+            inner_for = any(isinstance(c, ast.For) and c is not n and any(isinstance(x, ast.Call) and isinstance(x.func, ast.Attribute) and getattr(x.func.value, "id", None) == "self" and x.func.attr == "gamma" for x in ast.walk(c))
+                            for c in ast.walk(n))
+            if has_cb and not inner_for:
+                best = n
+    if best is None:
+        return None
+    body = list(best.body)
+    if body and isinstance(body[0], ast.If) and len(body[0].body) == 1 and isinstance(body[0].body[0], ast.Continue) and not body[0].orelse:
+        body = body[1:]
+    return body
+
+
+class _AlphaAll(ast.NodeTransformer):
+    """Rename every plain name by order of first occurrence (blocks are compared up to consistent renaming);
+    numeric literals compare by value (1 == 1.0: they always meet a float operand here)."""
+
+    def __init__(self):
+        self.ren = {}
+
+    def visit_Name(self, node):
+        if node.id in ("self", "math", "True", "False", "None") or node.id in dir(__builtins__):
+            return node
+        if node.id not in self.ren:
+            self.ren[node.id] = f"n{len(self.ren)}"
+        return ast.Name(id=self.ren[node.id], ctx=ast.Load())
+
+    def visit_Constant(self, node):
+        if isinstance(node.value, (int, float)) and not isinstance(node.value, bool):
+            return ast.Constant(value=float(node.value))
+        return node
+
+    def visit_AnnAssign(self, node):
+        if node.value is None:
+            return None
+        return self.visit(ast.Assign(targets=[node.target], value=node.value))
+
+
+def pair_block_text(fi: FuncInfo):
+    body = _pair_block(fi)
+    if body is None:
+        return None
+    mod = ast.Module(body=[_copy.deepcopy(s) for s in body], type_ignores=[])
+    out = _AlphaAll().visit(mod)
+    ast.fix_missing_locations(out)
+    return ast.unparse(out)
+
+
+def run_r194(prog: Program, rep: Report) -> None:
+    by_name = {r.model.name: r for r in prog.roles()}
+    pairs = [("BradleyTerryFull", "BradleyTerryPart", True), ("ThurstoneMostellerFull", "ThurstoneMostellerPart", False)]
+    for full, part, claimed in pairs:
+        if full not in by_name or part not in by_name:
+            if claimed:
+                rep.undecided("R19.4", module="openskill.models", function="MODELS", construct=f"{full} / {part}", message="the two Bradley-Terry models named in the statement were not found in the registry")
+            continue
+        kf, kp = by_name[full].model.lookup(KERNEL), by_name[part].model.lookup(KERNEL)
+        tf, tp = (pair_block_text(k) if k else None for k in (kf, kp))
+        c = f"per-pair exchange of {part} == {full}"
+        if tf is None or tp is None:
+            rep.undecided("R19.4", module=by_name[part].model.module.name, function=f"{part}.{KERNEL}", construct=c, message="could not locate the per-pair block (innermost loop calling the gamma callback)")
+            continue
+        if tf == tp:
+            rep.holds("R19.4", module=by_name[part].model.module.name, function=f"{part}.{KERNEL}", construct=c, line=kp.node.lineno, detail={"statements": len(tf.splitlines())})
+        elif claimed:
+            rep.violated("R19.4", module=by_name[part].model.module.name, function=f"{part}.{KERNEL}", construct=c, line=kp.node.lineno,
+                         message=f"the per-pair exchange of {part} differs from {full}'s: on two-team games partial pairing no longer returns exactly what full pairing returns\n" + diff_text(tf, tp, full, part))
+        else:
+            # Thurstone-Mosteller full vs part are not claimed equal (factor 2 in c_iq): recorded as a confirmed instance; any other difference is reported
+            lines_f, lines_p = tf.splitlines(), tp.splitlines()
+            diffs = [(a, b) for a, b in zip(lines_f, lines_p) if a != b]
+            only_factor = len(lines_f) == len(lines_p) and len(diffs) == 1 and diffs[0][1].replace("2.0 * ", "", 1) == diffs[0][0]
+            if only_factor:
+                rep.assumed("R19.4", module=by_name[part].model.module.name, function=f"{part}.{KERNEL}", construct=c, line=kp.node.lineno,
+                            message="confirmed difference: partial pairing scales c_iq by 2 (not claimed equal by the statement); everything else agrees")
+            else:
+                rep.violated("R19.4", module=by_name[part].model.module.name, function=f"{part}.{KERNEL}", construct=c, line=kp.node.lineno,
+                             message=f"the per-pair exchange of {part} differs from {full}'s beyond the documented factor 2 in c_iq\n" + diff_text(tf, tp, full, part))
+    rep.floor("R19.4", 1)
